@@ -604,6 +604,8 @@ HELPER_MENU = [
     ('unknown_blank_mid', 'foo', ['one', '', 'three']), ('unknown_blank_last', 'foo', ['a', '']), ('unknown_blank_first', 'foo', ['', 'b']),
     ('line_blank', 'line', ['255 255 255', 'targetname', '']), ('cyl_blank', 'cylinder', ['255 255 255', 'targetname', 'start', '']),
     ('sphere_blank', 'sphere', ['', '255 0 0']),
+    # the default key of the one-optional-key helpers, spelt in another case (an explicit argument, not the default)
+    ('origin_case', 'origin', ['Origin']), ('vecline_case', 'vecline', ['ORIGIN']), ('sidelist_case', 'sidelist', ['Sides']),
 ]
 CORE_HELPERS = {'halfgridsnap', 'size1', 'iconsprite1', 'unknown2', 'orderby', 'sphere0'}
 
@@ -1146,6 +1148,60 @@ def check_bin_ship(acc: core.Acc) -> None:
                  + ' | '.join(details[:3]), scope='shipped', field=field)
 
 
+def check_extra_database(acc: core.Acc) -> None:
+    """A second binary database registered with add_engine_database() (the documented way to override entities): looking
+    classnames up one at a time - before or after a full load - gives the same definitions as engine_dbase()."""
+    import contextlib
+    import pathlib
+    import tempfile
+    from srctools.fgd import add_engine_database, KVDef, IODef, ValueTypes
+    fresh_globals()
+    override = FGD.engine_dbase()
+    override['info_target'].keyvalues['custom_key'] = {frozenset(): KVDef('custom_key', ValueTypes.INT, 'Custom Key', '5')}
+    override['logic_relay'].inputs['customtrigger'] = {frozenset(): IODef('CustomTrigger', ValueTypes.FLOAT)}
+    buf = io.BytesIO()
+    with contextlib.redirect_stdout(io.StringIO()):
+        edb.serialise(override, buf)
+    names = ['info_target', 'logic_relay', 'func_button', 'env_beam', 'trigger_multiple', 'prop_static', 'Info_Target']
+    with tempfile.TemporaryDirectory(dir='/dev/shm') as folder:
+        path = pathlib.Path(folder, 'override.lzma')
+        path.write_bytes(buf.getvalue())
+        for order in ('lazy_first', 'full_first', 'interleaved'):
+            acc.evaluations += 1
+            acc.nontrivial += 1
+            case = {'part': 'extra_db', 'order': order}
+            fresh_globals()
+            try:
+                add_engine_database(path)
+                single = {}
+                whole = None
+                if order == 'full_first':
+                    whole = FGD.engine_dbase()
+                for i, n in enumerate(names):
+                    single[n] = dump_ent(EntityDef.engine_def(n))
+                    if order == 'interleaved' and i == 2:
+                        whole = FGD.engine_dbase()
+                if whole is None:
+                    whole = FGD.engine_dbase()
+                classes = set(EntityDef.engine_classes())
+            except Exception as exc:  # noqa: BLE001
+                acc.fail('lazy_exception', case, f'second database registered, order {order}: {exc_head(exc)}', where='extra_db')
+                continue
+            finally:
+                fresh_globals()
+            if 'custom_key' not in [k for k, _ in single['info_target']['kv']]:
+                acc.fail('lazy_def_differs', case, f'order {order}: engine_def(info_target) does not show the overriding definition', field='kv', where='extra_db')
+            if {k.casefold() for k in whole.entities} != {c.casefold() for c in classes}:
+                acc.fail('lazy_def_differs', case, f'order {order}: engine_classes() and engine_dbase() list different classnames', field='classes', where='extra_db')
+            for n in names:
+                w = dump_ent(whole[n.casefold()]) if n.casefold() in whole.entities else None
+                if w != single[n]:
+                    path_, a, bb = diff(w, single[n])[0] if w is not None else (['<absent>'], None, None)
+                    acc.fail('lazy_def_differs', case, f'order {order}: engine_def({n!r}) and engine_dbase()[{n!r}] differ at {"/".join(map(str, path_))}: '
+                             f'full load {short(a)} single {short(bb)}', field=field_of(path_), where='extra_db')
+                    break
+
+
 # ---------------------------------------------------------------------------------------------
 # lazy loading state machine
 
@@ -1369,6 +1425,9 @@ def shard(spec) -> core.Acc:
         blocks = lazy_blocks()
         for h in hists:
             run_history_then_full(acc, h, blocks)
+    elif kind == 'extra_db':
+        check_extra_database(acc)
+        acc.sample({'part': 'extra_db'}, 1)
     elif kind == 'lazy_name':
         run_first_query(acc, spec[1])
         acc.sample({'part': 'lazy_name', 'names': spec[1][:3]}, 1)
@@ -1442,6 +1501,7 @@ def run(ctx: core.Ctx) -> None:
         shards.append(('ship_ents', cs, False, [n for n in names if 'has_flags' in ent_features(dumps[n])]))
     # (E-binary) shipped
     shards.append(('bin_ship',))
+    shards.append(('extra_db',))
     # (B) lazy loading
     hists: list = [[i] for i in range(nb)]
     if q:
@@ -1559,6 +1619,9 @@ def replay(case: dict) -> list:
         run_history(acc, case['hist'], lazy_blocks(), True)
     elif part == 'lazy_full':
         run_history_then_full(acc, case['hist'], lazy_blocks())
+    elif part == 'extra_db':
+        check_extra_database(acc)
+        return [f for f in acc.all_failures() if f.case.get('order') == case.get('order')]
     elif part == 'lazy_name':
         run_first_query(acc, [case['name']])
         return [f for f in acc.all_failures()]
